@@ -585,8 +585,15 @@ def run_lines(exe, lines, shards=None, timeout=1800, env=None):
 
     def work(ch):
         i0, ls = ch
-        p = subprocess.run([exe], input=("\n".join(ls) + "\n").encode(), stdout=subprocess.PIPE,
-                           stderr=subprocess.PIPE, env=env, timeout=timeout)
+        try:
+            p = subprocess.run([exe], input=("\n".join(ls) + "\n").encode(), stdout=subprocess.PIPE,
+                               stderr=subprocess.PIPE, env=env, timeout=timeout)
+        except subprocess.TimeoutExpired as te:
+            # a shard that does not finish is reported like a crash (possible non-termination), never raised
+            part = (te.stdout or b"").decode("utf-8", "replace").split("\n")
+            if part and part[-1] == "":
+                part.pop()
+            return i0, ls, -9, part[:-1] if part else [], "TIMEOUT after %ss" % timeout
         out = p.stdout.decode("utf-8", "replace").split("\n")
         if out and out[-1] == "":
             out.pop()
